@@ -321,9 +321,18 @@ def run_batch(prop, spec, tier, verif_seed, runs=None, wall=None, workers=None, 
             mdesc, ok = minimise(world, prop, rec["desc"], oracle_id, known, budget_s=min_budget / max(1, min(4, len(groups))))
             path = write_replay(prop, world_name, rec, mdesc, ok, orig_ops)
             if not _verify_fresh(prop, path, oracle_id):
-                # fall back to the un-minimised description
+                # fall back to the un-minimised description, then to the other recorded runs of this class (a failure that depends on
+                # state leaked from earlier runs of the same worker process does not reproduce alone; another run of the class may)
                 path = write_replay(prop, world_name, rec, rec["desc"], False, orig_ops)
-                if not _verify_fresh(prop, path, oracle_id):
+                ok_fresh = _verify_fresh(prop, path, oracle_id)
+                for alt in [r for r in withdesc if r is not rec][:6]:
+                    if ok_fresh:
+                        break
+                    path = write_replay(prop, world_name, alt, alt["desc"], False, None)
+                    ok_fresh = _verify_fresh(prop, path, oracle_id)
+                    if ok_fresh:
+                        rec, mdesc = alt, alt["desc"]
+                if not ok_fresh:
                     print(f"HARNESS-ERROR property={prop} violation oracle={oracle_id} seed={rec['seed']} "
                           f"did not reproduce in a fresh interpreter (replay kept at {path})")
                     continue
